@@ -9,34 +9,48 @@ open Sodium Sodium.Model
 namespace Sodium.C18
 
 /-- `(1U + ~n) % n` is 2^32 mod n -/
-theorem uniformMin_eq (n : UInt32) (hn : 2 ≤ n.toNat) : (uniformMin n).toNat = 2 ^ 32 % n.toNat := by
-  sorry
+theorem uniformMin_eq (n : UInt32) (hn : 2 ≤ n.toNat) : (uniformMin n).toNat = 2 ^ 32 % n.toNat :=
+  RandP.uniformMin_toNat n (by omega)
 
 /-- the result is always below the bound (0 for bounds below 2, consuming nothing) -/
 theorem uniform_lt (n : UInt32) (ds : List UInt32) (v : UInt32) (k : Nat)
     (h : randombytes_uniform n ds = some (v, k)) :
     (n.toNat < 2 → v = 0 ∧ k = 0) ∧ (2 ≤ n.toNat → v.toNat < n.toNat) := by
-  sorry
+  rw [randombytes_uniform] at h
+  refine ⟨fun h2 => ?_, fun h2 => ?_⟩
+  · rw [if_pos ((RandP.lt_two_iff n).mpr h2)] at h
+    simp only [Option.some.injEq, Prod.mk.injEq] at h
+    exact ⟨h.1.symm, h.2.symm⟩
+  · rw [if_neg (fun c => by have := (RandP.lt_two_iff n).mp c; omega)] at h
+    exact RandP.uniformLoop_lt n _ (by omega) ds v k h
 
 /-- rejection sampling: the result is the first draw that is ≥ 2^32 mod n, reduced mod n; every
     earlier draw was below the threshold; exactly those draws are consumed -/
 theorem uniform_first_accepted (n : UInt32) (hn : 2 ≤ n.toNat) (pre : List UInt32) (d : UInt32) (post : List UInt32)
     (hpre : ∀ x ∈ pre, x.toNat < 2 ^ 32 % n.toNat) (hd : 2 ^ 32 % n.toNat ≤ d.toNat) :
     randombytes_uniform n (pre ++ d :: post) = some (UInt32.ofNat (d.toNat % n.toNat), pre.length + 1) := by
-  sorry
+  rw [randombytes_uniform, if_neg (fun c => by have := (RandP.lt_two_iff n).mp c; omega),
+    ← RandP.mod_eq_ofNat d n (by omega)]
+  apply RandP.uniformLoop_accept
+  · rw [UInt32.lt_iff_toNat_lt, RandP.uniformMin_toNat n (by omega)]; omega
+  · intro x hx
+    rw [UInt32.lt_iff_toNat_lt, RandP.uniformMin_toNat n (by omega)]; exact hpre x hx
 
 /-- a script with no acceptable draw never yields a value (the loop keeps drawing) -/
 theorem uniform_all_rejected (n : UInt32) (hn : 2 ≤ n.toNat) (ds : List UInt32)
     (h : ∀ x ∈ ds, x.toNat < 2 ^ 32 % n.toNat) : randombytes_uniform n ds = none := by
-  sorry
+  rw [randombytes_uniform, if_neg (fun c => by have := (RandP.lt_two_iff n).mp c; omega)]
+  apply RandP.uniformLoop_reject
+  intro x hx
+  rw [UInt32.lt_iff_toNat_lt, RandP.uniformMin_toNat n (by omega)]; exact h x hx
 
 /-- EXACT UNIFORMITY: among the 2^32 possible draws, the accepted ones (≥ 2^32 mod n) hit every
     residue v < n exactly (2^32 − 2^32 mod n) / n times — so the first accepted draw mod n is
     exactly uniform on [0, n) when draws are uniform on [0, 2^32). -/
 theorem uniform_exact (n : Nat) (hn : 2 ≤ n) (hn32 : n < 2 ^ 32) (v : Nat) (hv : v < n) :
     ((List.range (2 ^ 32)).filter fun r => decide (2 ^ 32 % n ≤ r) && decide (r % n = v)).length
-      = (2 ^ 32 - 2 ^ 32 % n) / n := by
-  sorry
+      = (2 ^ 32 - 2 ^ 32 % n) / n :=
+  RandP.accepted_count (2 ^ 32) n v (by omega) hv
 
 /-- the deterministic generator is the ChaCha20-IETF keystream from block 0 under the fixed nonce,
     for every size up to 2^38; larger sizes go to the misuse handler -/
@@ -44,11 +58,15 @@ theorem drg_eq (Bi : BlockFn) (hB : ∀ a b, (Bi a b).length = 64) (n0 : UInt32)
     randombytes_buf_deterministic Bi n0 size =
       if size > 2 ^ 38 then .misuse
       else .ok (Spec.Chacha.streamFrom (fun i => Bi (UInt32.ofNat i) n0) 0 size) := by
-  sorry
+  have e : (0x4000000000 : Nat) = 2 ^ 38 := by decide
+  rw [randombytes_buf_deterministic, e]
+  by_cases h : size > 2 ^ 38
+  · rw [if_pos h, if_pos h]
+  · rw [if_neg h, if_neg h, RandP.drg_loop_eq Bi hB n0 size (by omega)]
 
 /-- the fixed nonce is the ASCII string "LibsodiumDRG" -/
 theorem drgNonce_ascii : drgNonce = "LibsodiumDRG".toUTF8.toList := by
-  sorry
+  decide +kernel
 
 /-- a random scalar is the first 32-byte block (top byte masked to 5 bits) that is canonical and
     non-zero; exactly the blocks up to it are consumed -/
@@ -56,8 +74,8 @@ theorem scalar_random_first (isCanon : Bytes → Bool) (pre : List Bytes) (b : B
     (mask : Bytes → Bytes) (hmask : ∀ x, mask x = x.take 31 ++ [(x.getD 31 0) &&& 0x1f])
     (hpre : ∀ x ∈ pre, isCanon (mask x) = false ∨ (mask x).all (· == 0) = true)
     (hb : isCanon (mask b) = true ∧ (mask b).all (· == 0) = false) :
-    scalarRandomLoop isCanon (pre ++ b :: post) = some (mask b, pre.length + 1) := by
-  sorry
+    scalarRandomLoop isCanon (pre ++ b :: post) = some (mask b, pre.length + 1) :=
+  RandP.scalarRandomLoop_first isCanon mask hmask b post hb pre hpre
 
 /-- key generation returns exactly the requested bytes: the whole secret is covered by the request,
     depends only on the consumed bytes, and is injective in them -/
@@ -65,6 +83,33 @@ theorem keygen_covers (n : Nat) (s t : Bytes) (hs : n ≤ s.length) (ht : n ≤ 
     (keygen n s).1 = [n] ∧ (keygen n s).2.length = n ∧
     ((keygen n s).2 = (keygen n t).2 ↔ s.take n = t.take n) ∧
     (keygen n (s.take n ++ t)).2 = (keygen n s).2 := by
-  sorry
+  have _ := ht
+  refine ⟨rfl, ?_, Iff.rfl, ?_⟩
+  · simp only [keygen, List.length_take]; omega
+  · have hl : (s.take n).length = n := by rw [List.length_take]; omega
+    simp only [keygen]
+    rw [List.take_append_of_le_length (by omega), List.take_take, Nat.min_self]
+
+/-! #### non-vacuity: the models evaluate on small instances -/
+
+/-- 2^32 mod 10 = 6: the draw 5 is rejected, 6 is accepted (two draws consumed) -/
+example : randombytes_uniform 10 [5, 6, 7] = some (6, 2) := by decide
+example : randombytes_uniform 10 [5, 3] = none := by decide
+example : randombytes_uniform 1 [5, 3] = some (0, 0) := by decide
+example : randombytes_uniform 0 [] = some (0, 0) := by decide
+example : uniformMin 10 = 6 := by decide
+/-- a bound above 2^31: threshold 2^32 − n, first accepted draw reduced mod n -/
+example : randombytes_uniform 3000000000 [5, 1294967295, 4294967295, 7] = some (1294967295, 3) := by decide
+/-- the counting statement at modulus 2^4, bound 5 (threshold 1): each residue is hit 3 times -/
+example : ((List.range (2 ^ 4)).filter fun r => decide (2 ^ 4 % 5 ≤ r) && decide (r % 5 = 3)).length
+    = (2 ^ 4 - 2 ^ 4 % 5) / 5 := by decide
+/-- toy canonicity test (examples only): little-endian value below 1000 -/
+example : scalarRandomLoop (fun b => decide (le b < 1000))
+    [List.replicate 32 255, List.replicate 32 0, 5 :: List.replicate 30 0 ++ [0xe0], []] =
+    some (5 :: List.replicate 31 0, 3) := by decide
+example : randombytes_buf_deterministic C03.toyBlock 7 66 =
+    .ok (List.replicate 64 21 ++ List.replicate 2 22) := by decide
+example : randombytes_buf_deterministic C03.toyBlock 7 (2 ^ 38 + 1) = .misuse := by decide
+example : keygen 3 [1, 2, 3, 4, 5] = ([3], [1, 2, 3]) := by decide
 
 end Sodium.C18
